@@ -37,7 +37,7 @@ SPEC = {
                  "C04_get_after_set", "C04_get_after_delete", "C04_has_iff_get", "C04_iterate_exact",
                  "C04_deletePrefix_exact", "C04_batch_last_wins", "C04_cancel_noop", "C04_batch_handles_independent",
                  "C04_closed_everything_fails", "C04_close_is_final", "C04_copy_refines", "C04_copy_spec", "C04_prefix_range",
-                 "C04_upperBound_none", "C04_concatBytes", "C04_copyBytes", "C04_readAvailable", "C04_closed_forever", "C04_iterate_backward_is_reverse",
+                 "C04_upperBound_none", "C04_concatBytes", "C04_copyBytes", "C04_readAvailable", "C04_copyBatched_loop_is_chunks", "C04_closed_forever", "C04_iterate_backward_is_reverse",
                  "C04_wrapper_trace", "C04_debug_reports", "C04_flush_follows_mutation", "C04_trace_tables_agree", "C04_fault_free_is_model",
                  "C04_flush_error_surfaces", "C04_copy_stops_at_first_error", "C04_private_inv_reachable",
                  "C04_caller_writes_do_not_reach_the_store", "C04_set_stores_a_copy", "C04_get_returns_a_private_copy", "C04_commit_stores_copies",
